@@ -477,7 +477,18 @@ func TestVerifC06Inputs(t *testing.T) {
 	r.Bound("mutation_depth", map[bool]int{false: 1, true: 2}[r.Thorough()])
 	var rc vc06Case
 	if r.ReplayCase(&rc) {
-		cases = []vc06Case{rc}
+		// keys (and with them every reference) are fresh in every process: rebuild the case from its structural description
+		sel := []vc06Case{}
+		for _, c := range vc06BuildCases(b, strings.Contains(rc.Desc, " & ")) {
+			if c.Template == rc.Template && c.State == rc.State && c.Desc == rc.Desc {
+				sel = append(sel, c)
+				break
+			}
+		}
+		if len(sel) == 0 {
+			sel = []vc06Case{rc}
+		}
+		cases = sel
 	}
 	insts := map[string]*vc06Inst{}
 	get := func(state string) *vc06Inst {
